@@ -49,7 +49,9 @@ OwnPieces(ev) ==
 
 Untouched(evs, k) ==
   LET ev == evs[k]
-      moved == { m \in DOMAIN ev.segs : LET b == BuildEvent(evs, ev.segs[m].p) IN DumpOf(b, ev.segs[m].p) # ev.segs[m] } IN
+      SameIns(x, y) == Len(x) = Len(y) /\ \A i \in DOMAIN x : x[i].op = y[i].op /\ x[i].d = y[i].d /\ Ident(x[i].c, y[i].c)
+      SameDump(x, y) == x.jumps = y.jumps /\ SameIns(x.ins, y.ins)
+      moved == { m \in DOMAIN ev.segs : LET b == BuildEvent(evs, ev.segs[m].p) IN ~SameDump(DumpOf(b, ev.segs[m].p), ev.segs[m]) } IN
   IF moved = {} THEN <<>>
   ELSE LET m == CHOOSE m \in moved : TRUE
            b == DumpOf(BuildEvent(evs, ev.segs[m].p), ev.segs[m].p) IN
